@@ -45,7 +45,7 @@ def ofLine (j : Json) : Except String Line := do
   let toks ← match j.getObjVal? "toks" with
     | .ok v => do (← v.getArr?).toList.mapM ofTok
     | .error _ => pure []
-  pure { blank := getBoolD j "blank" false, parseNote := getBoolD j "parseNote" false,
+  pure { nl := getBoolD j "nl" true, blank := getBoolD j "blank" false, parseNote := getBoolD j "parseNote" false,
          resOpen := getBoolD j "resOpen" false, runNote := getBoolD j "runNote" false,
          empty := getBoolD j "empty" false, cls := ← ofCls (← getStr j "cls"),
          dtree := getBoolD j "dtree" false, mrsp := getBoolD j "mrsp" false,
